@@ -33,8 +33,28 @@ func GenSeq(t *rapid.T) *SeqCase {
 		// a long handler list: small-size thresholds are crossed
 		nh = rapid.SampledFrom([]int{9, 17, 33, 65, 70, 130}).Draw(t, "crowdSize")
 	}
+	// one history in twelve: a long list of one type whose only claimable
+	// Once handlers stand at the far end (behind 64 or more registrations
+	// that no publish retires), everything subscribed before the first publish
+	tail := rapid.IntRange(0, 11).Draw(t, "tailOnce") == 0
+	if tail {
+		nh = rapid.SampledFrom([]int{64, 65, 66, 70, 129}).Draw(t, "tailFront") + rapid.IntRange(1, 4).Draw(t, "tailOnces")
+	}
 	for i := 0; i < nh; i++ {
 		c.Handlers = append(c.Handlers, genH(t, 3))
+	}
+	if tail {
+		front := nh - rapid.IntRange(1, min(4, nh-64)).Draw(t, "tailK")
+		for i := range c.Handlers {
+			h := &c.Handlers[i]
+			h.T = 0
+			switch {
+			case i >= front:
+				h.Once, h.Filter = true, ""
+			case h.Once:
+				h.Filter = "none" // never claimed
+			}
+		}
 	}
 	// without asynchronous handlers the outcome of a cancellation in the
 	// middle of a dispatch is determined: let some plain handlers cancel
@@ -84,7 +104,7 @@ func GenSeq(t *rapid.T) *SeqCase {
 	for i := 0; i < n; i++ {
 		k := rapid.IntRange(0, 9).Draw(t, "kind")
 		switch {
-		case subbed < nh && (k < 3 || subbed == 0 || (nh > 6 && k < 7)):
+		case subbed < nh && (tail || k < 3 || subbed == 0 || (nh > 6 && k < 7)):
 			c.Steps = append(c.Steps, Step{K: "sub", H: subbed})
 			subbed++
 		case k == 9:
